@@ -572,7 +572,7 @@ Proof.
     assert (X0 : InvD d (put st (set_parked s false))).
     { apply (InvD_put_same d st s); [exact HI|simp_s; rewrite Hid; exact F|].
       unfold same_num; simp_s; repeat split; reflexivity. }
-    destruct (o_closed o && qe); [destruct vs; [exact X0|exact I]|].
+    destruct (o_closed o && qe && (s_buf s =? 0)); [destruct vs; [exact X0|exact I]|].
     apply add_outs_ok.
     destruct (o_pending_open o).
     + cbn [bind]. apply add_outs_ok. apply reclaim_all_ok; [lia|exact X0].
